@@ -71,3 +71,38 @@
 (declare-fun cli.flagStr (Int Str) Str)
 (declare-fun cli.flagInt (Int Str) Int)
 (declare-fun cli.flagBool (Int Str) Bool)
+
+; ---- ghost event traces (C14): an event appends (name, argument) to the trace ----
+(declare-fun trace.ev (Int Str Int) Int)
+(declare-fun trace.count (Int Str) Int)
+(declare-fun trace.has (Int Str Int) Bool)
+(axiom trace_count
+  (forall ((t Int) (n Str) (a Int) (m Str))
+    (! (= (trace.count (trace.ev t n a) m) (+ (trace.count t m) (ite (= n m) 1 0)))
+       :pattern ((trace.count (trace.ev t n a) m)))))
+(axiom trace_has
+  (forall ((t Int) (n Str) (a Int) (m Str) (b Int))
+    (! (= (trace.has (trace.ev t n a) m b) (or (and (= n m) (= a b)) (trace.has t m b)))
+       :pattern ((trace.has (trace.ev t n a) m b)))))
+
+; ---- metrics wiring (C20): uninterpreted constructors ----
+(declare-fun prom.wrapped (Int Str) Int)
+(declare-fun prom.gauge (Int Str) Int)
+(declare-fun prom.counterVec (Int Str Str Str) Int)
+(declare-fun prom.histVec (Int Str Str Str) Int)
+(declare-fun prom.sumVec (Int Str Str Str) Int)
+(declare-fun prom.inFlight (Int Int) Int)
+(declare-fun prom.counter (Int Int) Int)
+(declare-fun prom.duration (Int Int) Int)
+(declare-fun prom.reqSize (Int Int) Int)
+(declare-fun prom.respSize (Int Int) Int)
+(declare-fun prom.metricsHandler (Int) Int)
+(declare-fun prom.instrumented (Int Str Int) Int)
+; the handler the wrapped mux registers for (registry, pattern, handler): gauge -> counter{method,code} -> duration -> sizes
+(define-fun prom.instrumentedDef ((reg Int) (pattern Str) (h Int)) Int
+  (prom.inFlight (prom.gauge (prom.wrapped reg pattern) "http_requests_in_flight")
+    (prom.counter (prom.counterVec (prom.wrapped reg pattern) "http_requests_total" "method" "code")
+      (prom.duration (prom.histVec (prom.wrapped reg pattern) "http_request_duration_seconds" "method" "code")
+        (prom.reqSize (prom.sumVec (prom.wrapped reg pattern) "http_request_size_bytes" "method" "code")
+          (prom.respSize (prom.sumVec (prom.wrapped reg pattern) "http_response_size_bytes" "method" "code") h))))))
+(always-reveal prom.instrumentedDef)
